@@ -30,6 +30,7 @@ import (
 	"fmt"
 	"strconv"
 	"strings"
+	"sync"
 	"testing"
 
 	"github.com/nspcc-dev/neo-go/pkg/crypto/keys"
@@ -61,6 +62,39 @@ type vc24Cluster struct {
 	c        *testCluster
 	rules    []iec.Rule
 	cnrNodes int
+	faulty   []*vc24FaultyStore
+}
+
+// vc24FaultyStore wraps a node's in-memory storage and fails scripted Put calls
+// (the k-th Put of this node within the current case).
+type vc24FaultyStore struct {
+	inner  *inMemLocalStorage
+	mu     sync.Mutex
+	n      int
+	failAt map[int]bool
+}
+
+func (x *vc24FaultyStore) Put(ctx context.Context, obj *object.Object, bin []byte) error {
+	x.mu.Lock()
+	x.n++
+	fail := x.failAt[x.n]
+	x.mu.Unlock()
+	if fail {
+		return errors.New("[verif] injected storage failure")
+	}
+	return x.inner.Put(ctx, obj, bin)
+}
+
+func (x *vc24FaultyStore) IsLocked(ctx context.Context, a oid.Address) (bool, error) {
+	return x.inner.IsLocked(ctx, a)
+}
+
+func (x *vc24Cluster) resetFaults() {
+	for _, f := range x.faulty {
+		f.mu.Lock()
+		f.n, f.failAt = 0, nil
+		f.mu.Unlock()
+	}
 }
 
 func vc24ECContainer(rules []iec.Rule) container.Container {
@@ -98,10 +132,14 @@ func vc24NewCluster(t *testing.T, name string, rules []iec.Rule) *vc24Cluster {
 			c.nodeNetworks[i].cnrNodes.ecRules = rules
 		}
 	}
+	res := &vc24Cluster{name: name, c: c, rules: rules, cnrNodes: primary + reserve}
 	for i := range c.nodeServices {
 		c.nodeServices[i].log = zap.NewNop()
+		f := &vc24FaultyStore{inner: &c.nodeLocalStorages[i]}
+		c.nodeServices[i].localStore = f
+		res.faulty = append(res.faulty, f)
 	}
-	return &vc24Cluster{name: name, c: c, rules: rules, cnrNodes: primary + reserve}
+	return res
 }
 
 func (x *vc24Cluster) stored() []object.Object {
@@ -456,16 +494,6 @@ func vc24Mutations() []vc24Mutation {
 	}
 }
 
-func vc24Applicable(ms []vc24Mutation, s *vc24Subject) []vc24Mutation {
-	var res []vc24Mutation
-	for _, m := range ms {
-		if (m.auth == "" || m.auth == s.auth) && (m.shape == "" || m.shape == s.shape) {
-			res = append(res, m)
-		}
-	}
-	return res
-}
-
 // ---------------------------------------------------------------------------
 // independent validity predicate for stored objects
 
@@ -774,6 +802,489 @@ func TestVerifC24Signed(t *testing.T) {
 			}
 			if !bytes.Equal(stored[i].Marshal(), want) {
 				rt.Fatalf("C24 violation: stored object differs from the uploaded one")
+			}
+		}
+	})
+}
+
+// ---------------------------------------------------------------------------
+// node-sliced uploads (unsigned header + session token)
+
+// vc24Reassemble rebuilds the uploaded payload from everything stored in the
+// cluster and returns it with the root header.
+func vc24Reassemble(stored []object.Object, rules []iec.Rule) ([]byte, *object.Object, int, error) {
+	byID := map[oid.ID]*object.Object{}
+	for i := range stored {
+		byID[stored[i].GetID()] = &stored[i]
+	}
+	// logical objects (children or the whole object): id -> payload, header
+	type logical struct {
+		hdr *object.Object
+		pld []byte
+	}
+	logicals := map[oid.ID]logical{}
+	var links []*object.Object
+	if len(rules) == 0 {
+		for id, o := range byID {
+			if o.Type() == object.TypeLink {
+				links = append(links, o)
+				continue
+			}
+			logicals[id] = logical{hdr: o.CutPayload(), pld: o.Payload()}
+		}
+	} else {
+		type key struct {
+			par oid.ID
+			ri  int
+		}
+		groups := map[key]map[int]*object.Object{}
+		for _, o := range byID {
+			if o.Type() == object.TypeLink {
+				links = append(links, o)
+				continue
+			}
+			ri, pi, isPart := vc24ECInfo(o)
+			if !isPart || o.Parent() == nil {
+				return nil, nil, 0, fmt.Errorf("non-EC regular object %s stored in EC container", o.GetID())
+			}
+			k := key{o.Parent().GetID(), ri}
+			if groups[k] == nil {
+				groups[k] = map[int]*object.Object{}
+			}
+			if groups[k][pi] != nil {
+				return nil, nil, 0, fmt.Errorf("two different objects for EC part %d/%d of %s", ri, pi, k.par)
+			}
+			groups[k][pi] = o
+		}
+		for k, g := range groups {
+			rule := rules[k.ri]
+			total := int(rule.DataPartNum + rule.ParityPartNum)
+			if len(g) < int(rule.DataPartNum) {
+				return nil, nil, 0, fmt.Errorf("rule #%d of %s: only %d of %d parts stored, %d needed", k.ri, k.par, len(g), total, rule.DataPartNum)
+			}
+			var par *object.Object
+			parts := make([][]byte, total)
+			for i := 0; i < total; i++ {
+				if g[i] != nil {
+					par = g[i].Parent()
+					parts[i] = bytes.Clone(g[i].Payload())
+				}
+			}
+			var pld []byte
+			if par.PayloadSize() > 0 {
+				var err error
+				pld, err = iec.Decode(rule, par.PayloadSize(), parts) // restores missing parts in place
+				if err != nil {
+					return nil, nil, 0, fmt.Errorf("rule #%d of %s: decode: %w", k.ri, k.par, err)
+				}
+				if len(g) == total {
+					// the parity parts must be able to stand in for lost data parts
+					broken := make([][]byte, total)
+					for i := range parts {
+						broken[i] = bytes.Clone(parts[i])
+					}
+					for i := 0; i < int(rule.ParityPartNum) && i < int(rule.DataPartNum); i++ {
+						broken[i] = nil
+					}
+					dec, err := iec.Decode(rule, par.PayloadSize(), broken)
+					if err != nil {
+						return nil, nil, 0, fmt.Errorf("rule #%d of %s: decode without first parts: %w", k.ri, k.par, err)
+					}
+					if !bytes.Equal(dec, pld) {
+						return nil, nil, 0, fmt.Errorf("rule #%d of %s: parity parts do not restore the data parts", k.ri, k.par)
+					}
+				}
+			}
+			if prev, ok := logicals[k.par]; ok {
+				if !bytes.Equal(prev.pld, pld) {
+					return nil, nil, 0, fmt.Errorf("EC rules give different payloads for %s", k.par)
+				}
+				continue
+			}
+			logicals[k.par] = logical{hdr: par, pld: pld}
+		}
+		for par := range logicals {
+			for ri := range rules {
+				if groups[key{par, ri}] == nil {
+					return nil, nil, 0, fmt.Errorf("no parts of rule #%d stored for %s", ri, par)
+				}
+			}
+		}
+	}
+	for id, l := range logicals {
+		if uint64(len(l.pld)) != l.hdr.PayloadSize() {
+			return nil, nil, 0, fmt.Errorf("%s: %d payload bytes, header says %d", id, len(l.pld), l.hdr.PayloadSize())
+		}
+		if cs, ok := l.hdr.PayloadChecksum(); !ok || cs.Value() == nil || !bytes.Equal(cs.Value(), vc24Sum(l.pld)) {
+			return nil, nil, 0, fmt.Errorf("%s: payload checksum mismatch", id)
+		}
+	}
+	switch {
+	case len(links) == 0:
+		if len(logicals) != 1 {
+			return nil, nil, 0, fmt.Errorf("%d objects stored without a link object", len(logicals))
+		}
+		for _, l := range logicals {
+			return l.pld, l.hdr, 1, nil
+		}
+	case len(links) > 1:
+		return nil, nil, 0, fmt.Errorf("%d different link objects", len(links))
+	}
+	lnk := links[0]
+	var link object.Link
+	if err := lnk.ReadLink(&link); err != nil {
+		return nil, nil, 0, fmt.Errorf("link payload: %w", err)
+	}
+	root := lnk.Parent()
+	if root == nil {
+		return nil, nil, 0, errors.New("link without parent header")
+	}
+	var pld []byte
+	var prev oid.ID
+	first := link.Objects()[0].ObjectID()
+	for i, m := range link.Objects() {
+		l, ok := logicals[m.ObjectID()]
+		if !ok {
+			return nil, nil, 0, fmt.Errorf("child #%d %s listed in the link is not stored", i, m.ObjectID())
+		}
+		if uint64(m.ObjectSize()) != uint64(len(l.pld)) {
+			return nil, nil, 0, fmt.Errorf("child #%d: link says %d bytes, stored %d", i, m.ObjectSize(), len(l.pld))
+		}
+		if l.hdr.GetPreviousID() != prev {
+			return nil, nil, 0, fmt.Errorf("child #%d: broken previous-ID chain", i)
+		}
+		if i > 0 && l.hdr.GetFirstID() != first {
+			return nil, nil, 0, fmt.Errorf("child #%d: wrong first ID", i)
+		}
+		if i == len(link.Objects())-1 {
+			if p := l.hdr.Parent(); p == nil || p.GetID() != root.GetID() {
+				return nil, nil, 0, errors.New("last child does not carry the root header")
+			}
+		}
+		prev = m.ObjectID()
+		pld = append(pld, l.pld...)
+	}
+	if len(link.Objects()) != len(logicals) {
+		return nil, nil, 0, fmt.Errorf("%d children stored, link lists %d", len(logicals), len(link.Objects()))
+	}
+	return pld, root, len(link.Objects()), nil
+}
+
+func vc24Sum(b []byte) []byte { h := sha256.Sum256(b); return h[:] }
+
+func TestVerifC24Sliced(t *testing.T) {
+	rec := ev.New("C24", "sliced")
+	defer rec.Flush()
+	clusters := []*vc24Cluster{
+		vc24NewCluster(t, "rep", nil),
+		vc24NewCluster(t, "ec2/1", []iec.Rule{{DataPartNum: 2, ParityPartNum: 1}}),
+		vc24NewCluster(t, "ec3/1+1/1", []iec.Rule{{DataPartNum: 3, ParityPartNum: 1}, {DataPartNum: 1, ParityPartNum: 1}}),
+	}
+	rapid.Check(t, func(rt *rapid.T) {
+		cl := clusters[vc24Uniform(rt, "cluster", len(clusters))]
+		defer cl.c.resetAllStoredObjects()
+		owner := gensign.New(0, rapid.SampledFrom(gensign.Schemes).Draw(rt, "ownerScheme"))
+		var n int
+		switch rapid.IntRange(0, 4).Draw(rt, "lenKind") {
+		case 0:
+			n = rapid.IntRange(0, maxObjectSize).Draw(rt, "lenSmall")
+		case 1:
+			n = rapid.IntRange(0, 4*maxObjectSize+500).Draw(rt, "lenAny")
+		default:
+			n = max(0, maxObjectSize*rapid.IntRange(1, 4).Draw(rt, "k")+rapid.IntRange(-2, 2).Draw(rt, "d"))
+		}
+		payload := genobj.Fill(rapid.Uint64().Draw(rt, "seed"), n)
+		stream := payload
+
+		var hdr object.Object
+		hdr.SetContainerID(vc24Cnr)
+		hdr.SetOwner(owner.UserID())
+		hdr.SetAttributes(vc24Attrs(rt)...)
+		declared := rapid.Bool().Draw(rt, "declareSize")
+		if declared {
+			hdr.SetPayloadSize(uint64(n))
+		}
+
+		mut := "none"
+		if rapid.IntRange(0, 2).Draw(rt, "mutate") == 0 {
+			mut = rapid.SampledFrom([]string{"attr-zero-byte", "attr-duplicate-key", "attr-empty-value", "ec-attrs", "stream-longer", "stream-shorter"}).Draw(rt, "mutation")
+			switch mut {
+			case "attr-zero-byte":
+				hdr.SetAttributes(append(hdr.Attributes(), object.NewAttribute("z", "a\x00b"))...)
+			case "attr-duplicate-key":
+				hdr.SetAttributes(append(hdr.Attributes(), object.NewAttribute("dup", "1"), object.NewAttribute("dup", "2"))...)
+			case "attr-empty-value":
+				hdr.SetAttributes(append(hdr.Attributes(), object.NewAttribute("empty", ""))...)
+			case "ec-attrs":
+				hdr.SetAttributes(append(hdr.Attributes(), object.NewAttribute(iec.AttributeRuleIdx, "0"), object.NewAttribute(iec.AttributePartIdx, "0"))...)
+			case "stream-longer": // more bytes than declared
+				if !declared || n == 0 {
+					mut = "none"
+					break
+				}
+				stream = append(bytes.Clone(payload), genobj.Fill(5, rapid.IntRange(1, 3).Draw(rt, "extra"))...)
+			case "stream-shorter":
+				if !declared || n == 0 {
+					mut = "none"
+					break
+				}
+				stream = payload[:n-rapid.IntRange(1, min(3, n)).Draw(rt, "cut")]
+			}
+		}
+
+		through := rapid.IntRange(0, len(cl.c.nodeServices)-1).Draw(rt, "through")
+		var st *session.Object
+		var st2 *sessionv2.Token
+		tokVer := rapid.IntRange(1, 2).Draw(rt, "tokenVersion")
+		if tokVer == 1 {
+			st = vc24TokenV1(rt, owner, cl.c.nodeSessions[through].signer.Public())
+		} else {
+			st2 = vc24TokenV2(t, rt, owner, user.NewFromECDSAPublicKey(cl.c.nodeSessions[through].signer.ECDSAPrivateKey.PublicKey))
+		}
+		chunks := vc24Chunks(rt, stream)
+		// transient storage failures: node i fails its k-th Put
+		faults := 0
+		defer cl.resetFaults()
+		if rapid.IntRange(0, 2).Draw(rt, "withFaults") == 0 {
+			for i := 0; i < cl.cnrNodes; i++ {
+				if rapid.IntRange(0, 1).Draw(rt, fmt.Sprintf("faulty%d", i)) == 0 {
+					continue
+				}
+				fa := map[int]bool{}
+				for range rapid.IntRange(1, 2).Draw(rt, "nFail") {
+					fa[rapid.IntRange(1, 6).Draw(rt, fmt.Sprintf("failAt%d", i))] = true
+				}
+				cl.faulty[i].failAt = fa
+				faults += len(fa)
+			}
+		}
+		rootID, err := vc24Stream(cl.c.nodeServices[through], &hdr, chunks, st, st2)
+		stored := cl.stored()
+
+		nChildren := (n + maxObjectSize - 1) / maxObjectSize
+		role := "container-node"
+		if through >= cl.cnrNodes {
+			role = "outsider"
+		}
+		rec.Case(mut != "none" || nChildren >= 2, fmt.Sprintf("%s|%s|%d|%t|%d|v%d|%s", cl.name, mut, n, declared, len(chunks), tokVer, role),
+			"cluster:"+cl.name, "mut:"+mut, fmt.Sprintf("children:%d", min(nChildren, 5)), "role:"+role, fmt.Sprintf("token:v%d", tokVer), fmt.Sprintf("faults:%t", faults > 0), fmt.Sprintf("ok:%t", err == nil))
+
+		// whatever happened, every stored piece must be a self-consistent authenticated object
+		for i := range stored {
+			if e := vc24CheckStored(&stored[i], cl.rules); e != nil {
+				rt.Fatalf("C24 violation: node-sliced upload (%s, len=%d, mut=%s) left an inconsistent object %s: %v", cl.name, n, mut, stored[i].GetID(), e)
+			}
+		}
+		if mut != "none" {
+			if err == nil {
+				if mut == "stream-longer" && rec.Known("C24:validating-target-swallows-write-error") {
+					return
+				}
+				rt.Fatalf("C24 violation: upload with %s (%s, len=%d declared=%t) succeeded", mut, cl.name, n, declared)
+			}
+			if strings.HasPrefix(mut, "attr-") || mut == "ec-attrs" {
+				if len(stored) != 0 {
+					rt.Fatalf("C24 violation: header with %s rejected (%v) but %d objects stored", mut, err, len(stored))
+				}
+			}
+			return
+		}
+		if err != nil {
+			if faults > 0 {
+				return // nothing is demanded from a failed upload beyond consistent pieces
+			}
+			rt.Fatalf("valid node-sliced upload rejected (%s, len=%d, via node %d, token v%d): %v", cl.name, n, through, tokVer, err)
+		}
+		got, root, nCh, rerr := vc24Reassemble(stored, cl.rules)
+		if rerr != nil {
+			rt.Fatalf("C24 violation: stored pieces of a successful upload (%s, len=%d) do not reassemble: %v", cl.name, n, rerr)
+		}
+		if !bytes.Equal(got, payload) {
+			rt.Fatalf("C24 violation: reassembled payload differs from the streamed one (%s, len=%d, got %d bytes, %d children)", cl.name, n, len(got), nCh)
+		}
+		if root.GetID() != rootID {
+			rt.Fatalf("C24 violation: PUT returned ID %s, stored root header has %s", rootID, root.GetID())
+		}
+		if root.PayloadSize() != uint64(n) {
+			rt.Fatalf("C24 violation: root header payload size %d, streamed %d", root.PayloadSize(), n)
+		}
+		if cs, _ := root.PayloadChecksum(); !bytes.Equal(cs.Value(), vc24Sum(payload)) {
+			rt.Fatalf("C24 violation: root header checksum is not the checksum of the streamed payload")
+		}
+		if e := vc24CheckHeaderAuth(root); e != nil {
+			rt.Fatalf("C24 violation: root header: %v", e)
+		}
+		if root.Owner() != owner.UserID() {
+			rt.Fatalf("C24 violation: root owner is not the session issuer")
+		}
+	})
+}
+
+// ---------------------------------------------------------------------------
+// EC part objects formed outside the node (client PUT / replication)
+
+func TestVerifC24ECPart(t *testing.T) {
+	rec := ev.New("C24", "ecpart")
+	defer rec.Flush()
+	clusters := []*vc24Cluster{
+		vc24NewCluster(t, "ec2/1", []iec.Rule{{DataPartNum: 2, ParityPartNum: 1}}),
+		vc24NewCluster(t, "ec3/1+1/1", []iec.Rule{{DataPartNum: 3, ParityPartNum: 1}, {DataPartNum: 1, ParityPartNum: 1}}),
+	}
+	mutNames := []string{"rule-idx-overflow", "part-idx-overflow", "part-idx-of-another-part", "payload-changed-refinalized", "payload-len-refinalized",
+		"signed-part", "part-with-session-token", "parent-hashes-removed", "parent-signature-flip", "parent-id-flip", "id-flip", "checksum-flip-refinalized",
+		"stream-longer", "stream-shorter", "stream-byte-changed", "parent-foreign-signer"}
+	rapid.Check(t, func(rt *rapid.T) {
+		cl := clusters[vc24Uniform(rt, "cluster", len(clusters))]
+		defer cl.c.resetAllStoredObjects()
+		s := vc24Subject_(t, rt, maxObjectSize, false, "", "plain")
+		// parent: the signed object with the EC part hashes attribute
+		par := s.obj
+		attachECHashes(t, &par, cl.rules)
+		vc24Sign(rt, &par, s.signer)
+		ri := rapid.IntRange(0, len(cl.rules)-1).Draw(rt, "ruleIdx")
+		rule := cl.rules[ri]
+		total := int(rule.DataPartNum + rule.ParityPartNum)
+		pi := rapid.IntRange(0, total-1).Draw(rt, "partIdx")
+		parts, sums, err := iec.Encode(rule, bytes.Clone(s.payload))
+		if err != nil {
+			rt.Fatal(err)
+		}
+		mk := func(parent object.Object, payload []byte, ri, pi int) object.Object {
+			o, err := iec.FormObjectForECPart(s.signer, *parent.CutPayload(), payload, iec.PartInfo{RuleIndex: ri, Index: pi})
+			if err != nil {
+				rt.Fatal(err)
+			}
+			return o
+		}
+		valid := mk(par, parts[pi], ri, pi)
+		sent := valid
+		stream := valid.Payload()
+
+		mut := "none"
+		if rapid.IntRange(0, 4).Draw(rt, "mutate") != 0 {
+			mut = mutNames[vc24Uniform(rt, "mutation", len(mutNames))]
+			switch mut {
+			case "rule-idx-overflow":
+				sent = mk(par, parts[pi], len(cl.rules)+rapid.IntRange(0, 2).Draw(rt, "over"), pi)
+			case "part-idx-overflow":
+				sent = mk(par, parts[pi], ri, total+rapid.IntRange(0, 2).Draw(rt, "over"))
+			case "part-idx-of-another-part":
+				other := (pi + 1 + rapid.IntRange(0, total-2).Draw(rt, "other")) % total
+				if sums[other] == sums[pi] {
+					mut = "none"
+					break
+				}
+				sent = mk(par, parts[pi], ri, other)
+			case "payload-changed-refinalized":
+				if len(parts[pi]) == 0 {
+					mut = "none"
+					break
+				}
+				p := bytes.Clone(parts[pi])
+				p[rapid.IntRange(0, len(p)-1).Draw(rt, "pos")] ^= 1
+				sent = mk(par, p, ri, pi)
+				stream = p
+			case "payload-len-refinalized":
+				p := append(bytes.Clone(parts[pi]), 0)
+				if rapid.Bool().Draw(rt, "shorter") && len(parts[pi]) > 0 {
+					p = bytes.Clone(parts[pi][:len(parts[pi])-1])
+				}
+				sent = mk(par, p, ri, pi)
+				stream = p
+			case "signed-part":
+				if err := sent.Sign(s.signer); err != nil {
+					rt.Fatal(err)
+				}
+			case "part-with-session-token":
+				sent.SetSessionToken(vc24TokenV1(rt, s.owner, s.signer.Public()))
+				if err := sent.CalculateAndSetID(); err != nil {
+					rt.Fatal(err)
+				}
+			case "parent-hashes-removed":
+				p2 := s.obj // without the hashes attribute
+				vc24Sign(rt, &p2, s.signer)
+				sent = mk(p2, parts[pi], ri, pi)
+			case "parent-signature-flip":
+				p2 := par
+				sig := vc24FlipSig(p2.Signature(), rt)
+				p2.SetSignature(&sig)
+				sent = mk(p2, parts[pi], ri, pi)
+			case "parent-id-flip":
+				p2 := par
+				vc24FlipID(&p2, rt)
+				sent = mk(p2, parts[pi], ri, pi)
+			case "parent-foreign-signer":
+				p2 := par
+				_ = p2.Sign(gensign.New(2, neofscrypto.ECDSA_DETERMINISTIC_SHA256))
+				sent = mk(p2, parts[pi], ri, pi)
+			case "id-flip":
+				vc24FlipID(&sent, rt)
+			case "checksum-flip-refinalized":
+				cs, _ := sent.PayloadChecksum()
+				v := bytes.Clone(cs.Value())
+				v[0] ^= 1
+				sent.SetPayloadChecksum(checksum.New(checksum.SHA256, v))
+				if err := sent.CalculateAndSetID(); err != nil {
+					rt.Fatal(err)
+				}
+			case "stream-longer":
+				stream = append(bytes.Clone(stream), 7)
+			case "stream-shorter":
+				if len(stream) == 0 {
+					stream = []byte{1}
+				} else {
+					stream = stream[:len(stream)-1]
+				}
+			case "stream-byte-changed":
+				if len(stream) == 0 {
+					stream = []byte{1}
+				} else {
+					c := bytes.Clone(stream)
+					c[rapid.IntRange(0, len(c)-1).Draw(rt, "pos")] ^= 0x10
+					stream = c
+				}
+			}
+		}
+
+		path := rapid.SampledFrom([]string{"stream", "stream", "replicate"}).Draw(rt, "path")
+		through := rapid.IntRange(0, len(cl.c.nodeServices)-1).Draw(rt, "through")
+		if path == "replicate" {
+			through = rapid.IntRange(0, cl.cnrNodes-1).Draw(rt, "throughCnr")
+		}
+		svc := cl.c.nodeServices[through]
+		if path == "stream" {
+			_, err = vc24Stream(svc, sent.CutPayload(), vc24Chunks(rt, stream), nil, nil)
+		} else {
+			var cp object.Object
+			sent.CopyTo(&cp)
+			cp.SetPayload(stream)
+			err = svc.ValidateAndStoreObjectLocally(context.Background(), cp)
+		}
+		rec.Case(mut != "none", fmt.Sprintf("%s|%s|%d/%d|%s|%s|%d", cl.name, mut, ri, pi, s.auth, path, len(s.payload)),
+			"cluster:"+cl.name, "mut:"+mut, "path:"+path, "auth:"+s.auth)
+
+		stored := cl.stored()
+		if mut != "none" {
+			if err == nil {
+				rt.Fatalf("C24 violation: EC part with %s (%s rule %d part %d, %s via node %d) was accepted", mut, cl.name, ri, pi, path, through)
+			}
+			if len(stored) != 0 {
+				rt.Fatalf("C24 violation: EC part with %s rejected (%v) but %d object(s) stored", mut, err, len(stored))
+			}
+			return
+		}
+		if err != nil {
+			rt.Fatalf("valid EC part (%s rule %d part %d len=%d auth=%s, %s via node %d) rejected: %v", cl.name, ri, pi, len(s.payload), s.auth, path, through, err)
+		}
+		if len(stored) == 0 {
+			rt.Fatalf("valid EC part accepted but nothing stored")
+		}
+		for i := range stored {
+			if e := vc24CheckStored(&stored[i], cl.rules); e != nil {
+				rt.Fatalf("C24 violation: stored EC part is not self-consistent: %v", e)
+			}
+			if !bytes.Equal(stored[i].Marshal(), valid.Marshal()) {
+				rt.Fatalf("C24 violation: stored EC part differs from the uploaded one")
 			}
 		}
 	})
